@@ -199,6 +199,25 @@ def isPointInTriangle (p v1 v2 v3 : V2 K) : InTri :=
   else .some (!(decide has_cw && decide has_ccw))
 
 
+/-! ## `Triangle::contains_point` (2-D, `shape/triangle.rs`) -/
+
+/-- `f64::signum`: `1.0` for positive numbers **and `+0.0`**, `-1.0` for negative numbers **and `-0.0`** (NaN not modelled).
+The sign of a zero is read off `1 / x` (`1 / -0.0 = -∞ < 0`, `1 / +0.0 = +∞`); in a field `1 / 0 = 0`, i.e. `signum 0 = 1`,
+the value Rust gives for the `+0.0` an exact computation would produce. -/
+def signum (x : K) : K :=
+  if x < 0 then -1 else if 0 < x then 1 else if 1 / x < 0 then -1 else 1
+
+/-- `Triangle::contains_point(&self, p)` for `dim2` -/
+def triContainsPoint (a b c p : V2 K) : Bool :=
+  let ab := b.sub a
+  let bc := c.sub b
+  let ca := a.sub c
+  let sgn1 := ab.perp (p.sub a)
+  let sgn2 := bc.perp (p.sub b)
+  let sgn3 := ca.perp (p.sub c)
+  decide (0 ≤ signum sgn1 * signum sgn2) && decide (0 ≤ signum sgn1 * signum sgn3)
+    && decide (0 ≤ signum sgn2 * signum sgn3)
+
 /-! ## `transformation/polygon_intersection.rs`: convex polygons (O'Rourke's advance rule) -/
 
 /-- `PolylinePointLocation` -/
